@@ -457,7 +457,7 @@ FORBIDDEN_VAL = ("backward", "step", "zero_grad", "manual_backward", "optimizers
 
 
 def r5_validation(repo: Repo, rep):
-    R = rep.rule("R-C07-5", "validation_step evaluates only val_conditions and performs no optimisation effect", floor=2,
+    R = rep.rule("R-C07-5", "validation_step evaluates only val_conditions, with the device only, and performs no optimisation effect; no other Solver hook evaluates a condition", floor=5,
                  why="a backward/step/parameter write during validation changes learnable state")
     S = _solver(repo)
     fi = S.methods.get("validation_step")
@@ -473,6 +473,27 @@ def r5_validation(repo: Repo, rep):
         isinstance(t, (ast.Attribute, ast.Subscript)) for t in (n.targets if isinstance(n, ast.Assign) else [n.target]))]
     rep.check(R, not eff and not stores, fi.site(), fi.fq, "no backward/optimizer step/parameter or attribute write in validation_step",
               f"effects {eff} stores {stores}", str(eff + stores))
+    # the per-iteration caches of the conditions (sampled input functions, branch outputs) belong to the training steps: validation
+    # must not present itself as "the current iteration" (it would consume / replace what the next training step expects to compute)
+    for l in loops:
+        if not isinstance(l.target, ast.Name):
+            continue
+        for c in ast.walk(l):
+            if isinstance(c, ast.Call) and isinstance(c.func, ast.Name) and c.func.id == l.target.id:
+                extra = [k.arg for k in c.keywords if k.arg not in ("device",)] + [dump(a)[:30] for a in c.args]
+                rep.check(R, not extra, fi.site(c), fi.fq, "validation conditions are called with the device only (no iteration counter)", f"also passes {extra}", f"validation passes {extra}")
+    # ... and no other hook of the Solver evaluates a condition: every evaluation draws samples / advances data loaders / counters
+    for name, m in S.methods.items():
+        if name in ("training_step", "validation_step", "test_step"):
+            continue
+        calls = []
+        for l in ast.walk(m.node):
+            if isinstance(l, ast.For) and isinstance(l.target, ast.Name) and "conditions" in dump(l.iter):
+                calls += [dump(c)[:60] for c in ast.walk(l) if isinstance(c, ast.Call) and isinstance(c.func, ast.Name) and c.func.id == l.target.id]
+        calls += [dump(c)[:60] for c in ast.walk(m.node) if isinstance(c, ast.Call) and isinstance(c.func, ast.Subscript) and "conditions" in dump(c.func.value)]
+        if name.startswith(("on_", "setup", "configure", "train_dataloader", "val_dataloader")) or calls:
+            rep.saw(m)
+            rep.check(R, not calls, m.site(), m.fq, "conditions are evaluated in the step methods only", str(calls[:2]), f"condition evaluated in {name}")
 
 
 def r6_weight_kept(repo: Repo, rep):
@@ -492,6 +513,9 @@ def r6_weight_kept(repo: Repo, rep):
 
 
 def run(repo: Repo, rep):
+    from .generic import g_arg_constructor_parameters
+    g_arg_constructor_parameters(repo, rep, lambda m: ".conditions." in m or m.endswith(".solver") or ".models.parameter" in m or ".models.activation_fn" in m, floor=15,
+                                 why="a condition subclass that does not pass `weight` (or `parameter`, `track_gradients`) on to its base trains with the base's default")
     r6_weight_kept(repo, rep)
     from .c19 import r4_solver_hooks  # the configured scheduler steps against the dummy loader: its length must not cut the run into epochs
     r4_solver_hooks(repo, rep)
